@@ -13,7 +13,7 @@
   * The entry points run with `fuel = input length + 3` (`fuelFor`), which the theorems show to be enough.
 -/
 import GoMC.Lemmas.NBTDecode
-import GoMC.Lemmas.NBTRoundTrip
+import GoMC.Lemmas.NBTFragment
 import GoMC.Gen.NBT
 namespace GoMC.Props.C01
 open GoMC GoMC.Rd GoMC.Model GoMC.Model.NBT GoMC.Model.Go GoMC.Lemmas.NBTDecode GoMC.Lemmas.NBTTyped
@@ -118,36 +118,44 @@ theorem C01_no_overread (fmt : Format) (name : Bytes) (t : NBT) (rest : Bytes) (
 
 /-! ### the typed codec against the format
 
-`Plain τ ok val need` (Lemmas/NBTRoundTrip): the plain fragment of the type universe of `Model/GoVal` — fixed-size
-scalars, strings, typed arrays, `RawMessage`, `dynbt.Value`, slices, string-keyed maps and structs with a flat
-field table of these to any depth —
-with, for each type, the trees `ok` it holds and the Go value `val t` of a tree. -/
+`Plain τ k` (Lemmas/NBTFragment): the fragment of the type universe of `Model/GoVal` the induction covers — fixed-size
+scalars, strings, typed arrays (slices and `[n]T`), `RawMessage`, `dynbt.Value`, `any`, and to any depth slices, arrays,
+string-keyed maps, pointers and struct types (tags, `omitempty`, structs embedded by value) — with, for each type,
+its class `k`: the trees it holds (`k.ok`), the Go value of a tree (`k.val`), its canonical values (`k.canon`). -/
 
-/-- The encoder conforms to the format: `Encode(val t, name)`, on the structural model of nbt/encode.go, is
+/-- The encoder conforms to the format: `Encode(k.val t, name)`, on the structural model of nbt/encode.go, is
 `encDoc fmt name t` — the grammar of the format applied to the tree the value stands for — in both formats. -/
-theorem C01_encode_conforms_partial (cx : SnbtCarrier) {τ : GoType} {ok : NBT → Prop} {val : NBT → GoVal} {need : NBT → Nat}
-    (hτ : Plain τ ok val need) (fmt : Format) (name : Bytes) (t : NBT) (hname : name.length < 32768) (ht : ok t) :
-    encode cx (isNet fmt) name (some (val t)) = Res.ok (encDoc fmt name t) :=
+theorem C01_encode_conforms_partial (cx : SnbtCarrier) {τ : GoType} {k : Cls} (hτ : Plain τ k) (fmt : Format)
+    (name : Bytes) (t : NBT) (hname : name.length < 32768) (ht : k.ok t) :
+    encode cx (isNet fmt) name (some (k.val t)) = Res.ok (encDoc fmt name t) :=
   (plain_roundtrip cx hτ false fmt name t hname ht).1
+
+/-- … and for every canonical Go value of such a type: what `Encode` writes is the grammar's encoding of a
+well-formed tree. -/
+theorem C01_encode_conforms_value_partial (cx : SnbtCarrier) {τ : GoType} {k : Cls} (hτ : Plain τ k) (fmt : Format)
+    (name : Bytes) (v : GoVal) (hname : name.length < 32768) (hv : k.canon v) :
+    ∃ t : NBT, t.WF ∧ encode cx (isNet fmt) name (some v) = Res.ok (encDoc fmt name t) := by
+  obtain ⟨t, hwf, henc, _⟩ := plain_roundtrip_value cx hτ false fmt name v hname hv
+  exact ⟨t, hwf, henc⟩
 
 /-- The typed decoder conforms to the format and does not over-read: on a document of the format followed by any
 bytes, `Decode(&v)` with a fresh `v` of type `τ` returns the value of the tree and the root name, has consumed
 exactly the document, and leaves the rest in the source. -/
-theorem C01_decode_typed_partial (cx : SnbtCarrier) {τ : GoType} {ok : NBT → Prop} {val : NBT → GoVal} {need : NBT → Nat}
-    (hτ : Plain τ ok val need) (disallow : Bool) (fmt : Format) (name : Bytes) (t : NBT) (rest : Bytes) (s : Stream)
-    (hname : name.length < 32768) (ht : ok t) (hs : s.flat = encDoc fmt name t ++ rest) :
-    ∃ s', decodeTyped cx (isNet fmt) disallow τ s = (Res.ok (val t, docName fmt name), s') ∧ s'.flat = rest ∧
+theorem C01_decode_typed_partial (cx : SnbtCarrier) {τ : GoType} {k : Cls} (hτ : Plain τ k) (disallow : Bool)
+    (fmt : Format) (name : Bytes) (t : NBT) (rest : Bytes) (s : Stream)
+    (hname : name.length < 32768) (ht : k.ok t) (hs : s.flat = encDoc fmt name t ++ rest) :
+    ∃ s', decodeTyped cx (isNet fmt) disallow τ s = (Res.ok (k.val t, docName fmt name), s') ∧ s'.flat = rest ∧
       s'.failing = s.failing :=
   (plain_roundtrip cx hτ disallow fmt name t hname ht).2 s rest hs
 
-/- OPEN: C01_encode_conforms / C01_decode_typed outside the plain fragment (struct types with embedding /
-   `omitempty` / `,list`, pointers, interfaces,
-   `[N]T` arrays, `[]any`, `map[string]any`): the models are structural (`Model/NBTEncode`, `Model/NBTTyped`, both
-   total functions over `Model/GoVal`) and tied to the code by T2, where the emitted bytes are parsed by the spec
-   reader `parseDoc` (proved above to be the inverse of the grammar) and compared with the documented tree
-   computed independently (`Driver.C01.docTree`, which covers structs through the model `typeFields`); the
-   induction is done for the plain fragment only. What is proved for the whole universe: `Encode` never panics
-   (`C02_encode_no_panic`), `Decode` never panics and terminates (`C03_total_typed`). -/
+/- OPEN: C01_encode_conforms / C01_decode_typed outside the fragment (struct types with fields promoted through
+   embedded pointers or with `,list`, interfaces holding other dynamic types than the decoder's own):
+   the models are structural (`Model/NBTEncode`, `Model/NBTTyped`, both total functions over `Model/GoVal`) and tied
+   to the code by T2, where the emitted bytes are parsed by the spec reader `parseDoc` (proved above to be the
+   inverse of the grammar) and compared with the documented tree computed independently (`Driver.C01.docTree`,
+   which covers structs through the model `typeFields`); the induction is done for the fragment only. What is
+   proved for the whole universe: `Encode` never panics (`C02_encode_no_panic`), `Decode` never panics and
+   terminates (`C03_total_typed`). -/
 
 /-! non-vacuity: a nested well-formed tree with short strings exists, and the theorem applies to it -/
 
